@@ -10,7 +10,7 @@ Decided:
   ERRORS      coherence() propagates both the specialization and the orphan errors
 """
 from core import enum_matches, select_arms, V, T, walk, calls, peel, callee_matches, var_name, expr_vars, CallGraph
-from kit import need_body, has_call, short, result_expr, mentions_field, thir_all
+from kit import need_body, has_call, short, result_expr, mentions_field, thir_all, for_loops, loop_total, loop_flow
 from panics import panic_sites
 
 CS = "chalk_solve::coherence::CoherenceSolver::"
@@ -135,6 +135,55 @@ def run(ck, facts, tier):
             ck.ok(R, "disjoint:only-on-unique-refutation")
         else:
             ck.violation(R, "disjoint:only-on-unique-refutation", dj.where(), "two impls are disjoint only if `not { exists.. overlap }` has a Unique solution")
+
+    R = "C19.PRIORITIES"
+    ck.rule(R, "K3/K9: priorities are the longest-chain depth: set_priorities records the node's priority and then, on *every* visit (a node is "
+               "reached once per incoming edge and a later visit may raise its priority), walks *all* forest.neighbors(idx) with p + 1 - no "
+               "early return before the loop, no skipped child; SpecializationPriorities::insert never lowers a stored priority; "
+               "specialization_priorities starts set_priorities(root, 0) from every root (externals(Incoming))")
+    sp = need_body(ck, facts, R, CS + "set_priorities")
+    if sp:
+        th = facts.thir(CS + "set_priorities")
+        ls = [x for x in for_loops(th) if has_call(x[1], "neighbors")]
+        ck.floor(R, "set_priorities.for child in neighbors(idx)", len(ls), 1)
+
+        def rec_call(n):
+            if n.get("k") != "call" or not callee_matches(n, "set_priorities"):
+                return False
+            return any(peel(a).get("k") == "bin" and peel(a).get("op") == "Add" and "p" in expr_vars(a) for a in n.get("args", []))
+        for l, it, pat, lbody in ls:
+            loop_total(ck, R, "set_priorities:every-child-gets-p+1", sp.where(l.get("ln")), lbody, rec_call, what="a more special impl (child)")
+            res = loop_flow(th, False, lambda n, l=l: n is l)
+            if any(oc in ("return", "next", "errreturn") and not p for oc, p in res):
+                ck.violation(R, "set_priorities:children-walked-on-every-visit", sp.where(),
+                             "set_priorities can return without walking the node's children: when the node is reached again with a higher "
+                             "priority the children keep their stale, lower priority and two impls of one chain end up with equal priority")
+            else:
+                ck.ok(R, "set_priorities:children-walked-on-every-visit")
+        if has_call(th, "SpecializationPriorities::<I>::insert") or has_call(th, "insert"):
+            ck.ok(R, "set_priorities:records-own-priority")
+        else:
+            ck.violation(R, "set_priorities:records-own-priority", sp.where(), "the node's own priority is not recorded")
+    ins = need_body(ck, facts, R, "chalk_solve::coherence::SpecializationPriorities::insert")
+    if ins:
+        th = ins.thir
+        asserts = any("assert" in str(x.get("x", "")) for x in walk(th, False) if isinstance(x, dict))
+        lt_guard = [x for x in walk(th) if x.get("k") == "if" and any(
+            (y.get("k") == "bin" and y.get("op") in ("Lt", "Gt")) or (y.get("k") == "call" and callee_matches(y, ("PartialOrd::lt", "PartialOrd::gt")))
+            for y in walk(x["cond"])) and any(y.get("k") == "assign" or (y.get("k") == "call" and callee_matches(y, "insert")) for y in walk(x["then"]))]
+        uncond = [x for x in walk(th) if x.get("k") == "call" and callee_matches(x, ("IndexMap::<K, V, S>::insert", "HashMap::<K, V, S>::insert"))]
+        if (lt_guard or asserts) and not (uncond and not lt_guard and not asserts):
+            ck.ok(R, "insert:never-lowers", "existing priority replaced only under a `<` comparison (or vacancy asserted)")
+        else:
+            ck.violation(R, "insert:never-lowers", ins.where(), "a stored priority may be overwritten by a lower one (the last visit wins instead of the longest chain)")
+    spb = need_body(ck, facts, R, CS + "specialization_priorities")
+    if spb:
+        th = facts.thir(CS + "specialization_priorities")
+        ls = [x for x in for_loops(th) if has_call(x[1], "externals")]
+        ck.floor(R, "specialization_priorities.for root in externals", len(ls), 1)
+        for l, it, pat, lbody in ls:
+            loop_total(ck, R, "specialization_priorities:every-root", spb.where(l.get("ln")), lbody,
+                       lambda n: n.get("k") == "call" and callee_matches(n, "set_priorities"), what="a root of the specialization forest")
 
     R = "C19.ERRORS"
     ck.rule(R, "K3: LoweringDatabase::coherence propagates the error of specialization_priorities (per trait, over all traits) and of orphan_check")
